@@ -472,6 +472,7 @@ def fam_C06(rng, tier):
                       'eq %d %d' % (v0, v0 + 1), 'eq %d %d' % (v0, v0 + 2), 'eq %d %d' % (v0 + 2, v0 + 3),
                       'tolist %d %d' % (v0 + 2, v0 + 4), 'eq %d %d' % (v0 + 4, slots[0])]
         out.append(Case(lines, 'construction-paths', (), {'cfg': cfg, 'len': ln}))
+    out += hash_valued(rng, tier)
     return out
 
 
@@ -891,6 +892,30 @@ def fam_C11(rng, tier):
             lines += ['iterfrom %d %d' % (h, i), 'levels %d %d' % (h, i), 'clone %d 5' % h, 'pop 5 %d' % i,
                       'len 5', 'tovec 5', 'root 5', 'clone %d 6' % h, 'popslow 6 %d' % i, 'eq 5 6', 'root 6']
         out.append(Case(lines, 'suffix-after-history', (), {'cfg': cfg}))
+    # pop_front at a high level: n a multiple of 2^16 (and 2^17), lengths that are and are not
+    # multiples of the subtree size, contents not uniform
+    for kind in ('u64', 'h256'):
+        for k, extra in ((2, 0), (3, 0), (3, 5), (4, 0), (2, 65535)):
+            r = sub(rng)
+            cfg = (kind, 1048576, r.choice(MAPS))
+            ln = k * 65536 + extra
+            v = val(r, kind)
+            lines = [cfg_line(cfg), 'repeat 0 %d %s' % (ln, v)]
+            marks = sorted({0, 1, 65535, 65536, 65537, 131071, 131072, ln - 1, r.randrange(ln), r.randrange(ln)})
+            marks = [i for i in marks if i < ln]
+            for i in marks:
+                lines.append('set 0 %d %s' % (i, val(r, kind)))
+            lines += ['apply 0', 'root 0']
+            for n in (65536, 131072, 65536 * k, 32768, 196608):
+                if n > ln + 1:
+                    continue
+                lines += ['clone 0 1', 'pop 1 %d' % n, 'len 1', 'pending 1', 'root 1', 'clone 0 2', 'popslow 2 %d' % n,
+                          'eq 1 2', 'root 2', 'get 1 0', 'get 1 %d' % max(ln - n - 1, 0), 'get 1 %d' % max(ln - n, 0)]
+                for i in marks:
+                    if i >= n:
+                        lines.append('get 1 %d' % (i - n))
+                lines += ['push 1 %s' % val(r, kind), 'apply 1', 'len 1', 'root 1', 'get 1 %d' % max(ln - n, 0)]
+            out.append(Case(lines, 'level16-pop', (), {'cfg': cfg, 'len': ln}))
     return out
 
 
@@ -1196,7 +1221,7 @@ def conc_heavy(rng, tier):
         out.append(Case(lines, 'threads-heavy-' + kind, ('no_deadlock',), {'cfg': cfg, 'threads': 16}))
     # many threads hash fresh, private, very deep and nearly empty trees at once (zero subtrees deeper
     # than the precomputed table are computed on the fly)
-    for cfg in [('u64', 2 ** 60, 'btree'), ('h256', 2 ** 63, 'btree'), ('u64', 2 ** 63, 'btree')] * scale(tier, 6, 12):
+    for cfg in [('u64', 2 ** 60, 'btree'), ('h256', 2 ** 63, 'btree'), ('u64', 2 ** 63, 'btree')] * scale(tier, 16, 24):
         kind, N, m = cfg
         r = sub(rng)
         # shared, not yet hashed, very deep trees: every thread starts by hashing them at the same time
@@ -1211,7 +1236,8 @@ def conc_heavy(rng, tier):
                 lines.append('T %d %s' % (t, o))
         lines += ['conc-end', 'root 0', 'root 1', 'new 2 list ' + ' '.join(val(r, kind) for _ in range(3)), 'root 2',
                   'empty 3', 'root 3']
-        out.append(Case(lines, 'threads-deep-trees', ('no_deadlock',), {'cfg': cfg, 'threads': 16}))
+        # process-wide state (e.g. a lazily filled static table) is cold only once per process
+        out.append(Case(lines, 'threads-deep-trees', ('no_deadlock',), {'cfg': cfg, 'threads': 16, 'isolate': True}))
     return out
 
 
